@@ -70,13 +70,22 @@ var qsPool = sync.Pool{
 }
 
 func NewQuestion() *Question {
+	if q := verifGetQuestion(); q != nil {
+		return q
+	}
 	return qsPool.Get().(*Question)
 }
 
 func ReleaseQuestion(q *Question) {
+	if verifObjRelease(q) {
+		return
+	}
 	if q.Name != nil {
 		ReleaseName(q.Name)
 	}
 	*q = Question{}
+	if verifObjQuarantine(q) {
+		return
+	}
 	qsPool.Put(q)
 }
